@@ -173,6 +173,11 @@ def build_project(strings, root, dumpdir):
         largs = ["'-Wl,--sent-begin'"] + [lit('--lverif%d=%s' % (i, s)) for i, s in enumerate(ch)] + ["'-Wl,--sent-end'"]
         L.append("executable('%s', 'main.c', c_args: [%s], link_args: [%s])" % (name, ', '.join(cargs), ', '.join(largs)))
         plan.append(('cc', name, ch, None, {}))
+    # one target far above the response-file threshold: its compile/link statements use the rule's response-file variant
+    # while every other statement of the same rule stays on the plain command line
+    big = ', '.join("'-DBIG%d=%s'" % (i, 'x' * 60) for i in range(2600))
+    bigl = ', '.join("'-Wl,--defsym=big%d=%d'" % (i, i) for i in range(9000))
+    L.append("executable('bigrsp', 'main.c', c_args: [%s], link_args: [%s])" % (big, bigl))
     pa = cl[:60]
     L.insert(1, "add_project_arguments(%s, language: 'c')" % ', '.join(["'-DPSENT_BEGIN'"] + [lit('--pverif%d=%s' % (i, s)) for i, s in enumerate(pa)] + ["'-DPSENT_END'"]))
     L.insert(1, "add_global_arguments(%s, language: 'c')" % ', '.join(["'-DGSENT_BEGIN'"] + [lit('--gverif%d=%s' % (i, s)) for i, s in enumerate(pa)] + ["'-DGSENT_END'"]))
@@ -468,6 +473,7 @@ def main():
         for key, what, rep in res['viol']:
             ck.violation(key, what, rep)
     ck.part('positions', **kinds)
+    ck.require(tot['rsp_edges'] > 0, 'no response-file statement seen')
     ck.part('totals', strings=len(strings), max_atoms=n, **tot)
     ck.sample({'strings': strings[30:36], 'positions': sorted(kinds)})
     ck.require(tot['wrapped_edges'] > 0 and tot['rsp_edges'] > 0 and len(kinds) >= 12, 'not every wrapping mode was exercised: %r %r' % (tot, sorted(kinds)))
